@@ -5,10 +5,10 @@ PROPERTY = 'C04'
 WHAT = 'explicit'
 
 TOK_G = ['expr', 'dangling', 'nullamb', 'rr_prio', 'amb_inl', 'amb_mid', 'amb_exp1', 'amb_alias', 'amb_null', 'amb_nested_inl', 'amb_nested_inl2', 'shape4', 'shape1', 'hidden_lrec',
-         'nullchain', 'ebnf', 'unitcycle', 'cycle2', 'ss']
+         'nullchain', 'ebnf', 'unitcycle', 'cycle2', 'ss', 'amb4', 'amb4n']
 TXT_G = [('collide', 'dynamic'), ('collide', 'dynamic_complete'), ('nulltxt', 'dynamic_complete'), ('nulltxt', 'dynamic'), ('opttail', 'dynamic_complete'), ('opttail', 'dynamic'),
-         ('ignstart', 'dynamic'), ('ignstart', 'dynamic_complete')]
-TXT_K = {'collide': 5, 'nulltxt': 6, 'opttail': 6, 'ignstart': 4}
+         ('ignstart', 'dynamic'), ('ignstart', 'dynamic_complete'), ('twostart', 'dynamic'), ('twostart', 'dynamic_complete')]
+TXT_K = {'collide': 5, 'nulltxt': 6, 'opttail': 6, 'ignstart': 4, 'twostart': 3}
 
 
 def make_plan(what, tier, seed):
